@@ -637,6 +637,22 @@ def gen_reloc(seed, idbase=0, nops=150, width=16384, nkeys=5, name="reloc", kt="
     for i in range(nops):
         r = rng.random()
         k = rng.choice(allk)
+        if rng.random() < 0.06 and order:
+            # read-modify-write: the value of a key is read, replaced by a longer one (it moves), a value of the OLD length
+            # goes to another key (it re-uses the vacated slot) and is read back at once - a remembered read is stale by then
+            kk = rng.choice(order)
+            s.op("put", h=1, k=kk, v=vids[1])
+            s.op("decode", **dec) if not snap else None
+            s.op("get", h=1, k=kk)
+            s.op("put", h=1, k=kk, v=vids[5])
+            tgt = next((x for x in allk if x not in order), None) or rng.choice([x for x in order if x != kk] or [kk])
+            s.op("put", h=1, k=tgt, v=vids[2])
+            if tgt not in order:
+                order.insert(0, tgt)
+            s.op("get", h=1, k=tgt)
+            s.op("get", h=1, k=kk)
+            s.op("decode", **dec) if not snap else None
+            continue
         if order and rng.random() < 0.08:
             # a lookup of the chain head, then new keys in front of it, then the looked-up key is deleted or
             # overwritten by a relocating value: whatever the lookup remembered is stale by then
@@ -811,6 +827,14 @@ def gen_reopen(seed, idbase=0, nops=300, nkeys=40, nb=("BucketsSize", 64), kt="b
     for i in range(nops):
         r = rng.random()
         k = rng.choice(keys)
+        if i % 37 == 20:
+            # a clone of the database object is made and dropped again (passed by value to a helper, say);
+            # then the map is asked for by name once more and updated through that handle too
+            s.op("clone_db", db=3, **{"from": 0})
+            s.op("drop_db", db=3)
+            s.op("map", h=4, db=0, name=mname, kt=kt)
+            s.op("put", h=4, k=rng.choice(keys), v=rng.choice(vids))
+            s.op("drop_h", h=4)
         if i == 12 and seed % 2 == 0:
             hs = second_handle()
         if r < 0.5:
@@ -912,6 +936,10 @@ def gen_sync(seed, idbase=0, nops=160, nmaps=2, kill=False, name="sync"):
                 else:
                     s.op("map", h=mm["h"] + 10, db=0, name=mm["name"], kt=mm["kt"], params={"buckets": ["BucketsSize", 4]})
                 mm["h2"] = mm["h"] + 10
+        if i % 29 == 11:
+            # a clone of the database object is made and dropped again: the database-level syncs below still cover every map
+            s.op("clone_db", db=3, **{"from": 0})
+            s.op("drop_db", db=3)
         wh = rng.choice([m["h"], m.get("h2", m["h"])])
         if r < 0.55:
             s.op("put", h=wh, k=k, v=rng.choice(vids))
@@ -1040,6 +1068,11 @@ def gen_fault(seed, idbase=0, shape="val", threshold=0, syncop="flush", name="fa
         s.op(syncop if retry else rng.choice(["flush", "sync_data"]), h=1)
         if retry:
             s.op("del", h=1, k=rng.choice(keys))
+        if retry and seed % 2 == 0 and not second:
+            # the last handle of the map goes away and the map is asked for again, all while the OS still refuses writes
+            s.op("drop_h", h=1)
+            s.op("map", h=1, db=0, name="m", kt="bytes")
+            s.op("dump", h=1, **{"as": "C16.view"})
     s.op("rlimit_fsize")                       # lift
     s.op("copy_dir", **{"from": "d", "to": "snapA"})
     s.op("child_dump", dir="snapA", name="m", kt="bytes", **{"as": "C16.reported"})
@@ -1110,6 +1143,11 @@ def gen_params(seed, idbase=0, nops=220, buckets=("BucketsSize", 8), bufs=None, 
             s.op("iter", h=1, flavour=rng.choice(FLAVOURS))
         else:
             s.op(rng.choice(["flush", "sync_data", "read_fill_buffer"]), h=1)
+        if i == nops // 4 or i == (3 * nops) // 4:
+            # the map is asked for again while it is open, with other parameters: they are ignored, the handle
+            # denotes the same contents (all later calls go through the newer handle)
+            s.op("map", h=1, db=0, name="m", kt=kt, params=reopen or {"buckets": ["BucketsSize", 2]}, **{"as": "C07.reopen"})
+            s.op("dump", h=1, **{"as": "C07.reopen"})
         if i == nops // 2:
             s.op("dump", h=1)
             s.op("drop_all")
@@ -1354,7 +1392,8 @@ def gen_readonly(seed, idbase=0, nb=("BucketsSize", 16), state="dense", kt="byte
     return s
 
 
-def gen_twice(seed, idbase=0, nops=150, nb=("BucketsSize", 32), kt="bytes", bufs=None, name="twice", nkeys=20, tail=False, same_process=False):
+def gen_twice(seed, idbase=0, nops=150, nb=("BucketsSize", 32), kt="bytes", bufs=None, name="twice", nkeys=20, tail=False, same_process=False,
+              interleaved=False):
     """C18: the same update history with the same parameters is run twice: replica A plainly, replica B in
     another process and directory with read-only calls spliced in; the files must be byte-identical."""
     rng = random.Random(seed)
@@ -1417,6 +1456,38 @@ def gen_twice(seed, idbase=0, nops=150, nb=("BucketsSize", 32), kt="bytes", bufs
         s.op("stats", h=1, filling=True)
         s.op("dump", h=1)
         s.op("drop_all")
+    if interleaved:
+        # both replicas are open at the same time in ONE process (two database objects on two fresh directories),
+        # every update goes to A and then to B; the read-only calls go to B only
+        s.op("open_db", db=0, dir="dA")
+        s.op("open_db", db=1, dir="dB")
+        s.op("map", h=1, db=0, name="m", kt=kt, params=params)
+        s.op("map", h=2, db=1, name="m", kt=kt, params=params)
+        for ck in chainkeys[:20]:
+            s.op("put", h=1, k=ck, v=vids[1])
+            s.op("put", h=2, k=ck, v=vids[1])
+        for (o, k, v) in upd:
+            for h in (1, 2):
+                if o == "put":
+                    s.op("put", h=h, k=k, v=v)
+                elif o == "del":
+                    s.op("del", h=h, k=k)
+                elif o == "bulk_del":
+                    s.op("bulk_del", h=h, ks=k)
+                else:
+                    s.op(o, h=h, ks=k, vs=v)
+            if rng.random() < 0.4:
+                s.op(rng.choice(["get", "includes"]), h=2, k=rng.choice(keys))
+            elif rng.random() < 0.15:
+                s.op("iter", h=2, flavour=rng.choice(FLAVOURS))
+        s.op("dump", h=1)
+        s.op("dump", h=2)
+        s.op("new_process")
+        s.op("digest", dir="dA", name="m", tag="repA")
+        s.op("digest", dir="dB", name="m", tag="repB")
+        s.op("note", conj="C18.equal", same=["repA", "repB"])
+        s.op("decode", dir="dB", name="m", native=True)
+        return s
     for rep, d in (("A", "dA"), ("B", "dB")):
         s.op("open_db", db=0, dir=d)
         s.op("map", h=1, db=0, name="m", kt=kt, params=params)
